@@ -355,3 +355,20 @@ def Comb.adapt (g : α' → Option α) (h : β → β') (K : Comb κ α β) : Co
     | none => .ret k
   fin := fun k => (K.fin k).mapItems h
 end HvPush
+
+namespace HvPush
+/-! ### pipelines: a combinator whose (single) downstream is another combinator -/
+
+/-- run `p`, answering each of its downstream calls by the corresponding operation of `K2` -/
+def Prog.subst (K2 : Comb κ2 β γ) : Prog β ρ → κ2 → Prog γ (ρ × κ2)
+  | .ret r, k2 => .ret (r, k2)
+  | .rdy _ k, k2 => (K2.ready k2).bind fun a => (k a.2).subst K2 a.1
+  | .snd _ x k, k2 => (K2.send k2 x).bind fun k2' => k.subst K2 k2'
+  | .fin _ k, k2 => (K2.fin k2).bind fun a => (k a.2).subst K2 a.1
+
+/-- `K1` pushing into `K2` (all of `K1`'s downstream calls go to `K2`) -/
+def Comb.comp (K1 : Comb κ1 α β) (K2 : Comb κ2 β γ) : Comb (κ1 × κ2) α γ where
+  ready := fun k => ((K1.ready k.1).subst K2 k.2).bind fun r => .ret ((r.1.1, r.2), r.1.2)
+  send := fun k x => ((K1.send k.1 x).subst K2 k.2).bind fun r => .ret (r.1, r.2)
+  fin := fun k => ((K1.fin k.1).subst K2 k.2).bind fun r => .ret ((r.1.1, r.2), r.1.2)
+end HvPush
